@@ -40,6 +40,9 @@ pub enum Convention {
 pub struct Case {
     pub convention: Convention,
     pub ops: Vec<Op>,
+    /// Key universe (0 = the default of 8).
+    #[serde(default)]
+    pub universe: u8,
 }
 
 /// Whole-item convention: ordered by key first; erased = no value.
@@ -184,6 +187,15 @@ impl Model {
 
 const UNIVERSE: u8 = 8;
 
+thread_local! {
+    /// Key universe of the case being run (8 for the enumerations and short histories, up to 250 for long runs).
+    static UNIVERSE_NOW: std::cell::Cell<u8> = const { std::cell::Cell::new(UNIVERSE) };
+}
+
+fn universe() -> u8 {
+    UNIVERSE_NOW.with(|u| u.get())
+}
+
 fn observe<C, V>(deque: &SortedDeque<C>, model: &Model, after: &str) -> Result<(), Fail>
 where
     V: Conv,
@@ -206,7 +218,10 @@ where
         if deque.is_empty() != model.map.is_empty() {
             return Err(format!("is_empty {}, reference {}", deque.is_empty(), model.map.is_empty()));
         }
-        for key in 0..UNIVERSE + 2 {
+        // With a large universe, probing every key after every step is quadratic: sample.
+        let uni = universe();
+        let stride = if uni > 16 { 1 + (uni as usize) / 12 } else { 1 };
+        for key in (0..uni.saturating_add(2)).step_by(stride) {
             let held = model.map.get(&key).copied();
             let got = deque.find(&V::lookup(key, held)).map(V::parts);
             let want = held.map(|v| (key, Some(v)));
@@ -263,17 +278,17 @@ where
         match *op {
             Op::PushNext { gap, value } => {
                 let key = match last_key {
-                    None => gap % UNIVERSE,
+                    None => gap % universe(),
                     Some(last) => last.saturating_add(1 + gap % 2),
                 };
-                if key < UNIVERSE {
+                if key < universe() {
                     deque.push_back_or_panic(V::live(key, value));
                     let stored = V::parts(&V::live(key, value)).1.unwrap();
                     model.map.insert(key, stored);
                     model.order.push((key, Slot::Present));
                 }
             }
-            Op::PushErased { key } => deque.push_back_or_panic(V::erased(key % UNIVERSE)),
+            Op::PushErased { key } => deque.push_back_or_panic(V::erased(key % universe())),
             Op::PushBad { .. } => unreachable!(),
             Op::Find(key) => {
                 let held = model.map.get(&key).copied();
@@ -370,6 +385,13 @@ fn outcome(stats: &Stats) -> Outcome {
 }
 
 pub fn check_case(case: &Case) -> CaseResult {
+    UNIVERSE_NOW.with(|u| u.set(if case.universe == 0 { UNIVERSE } else { case.universe }));
+    let r = check_case_inner(case);
+    UNIVERSE_NOW.with(|u| u.set(UNIVERSE));
+    r
+}
+
+fn check_case_inner(case: &Case) -> CaseResult {
     match case.convention {
         Convention::PairVec => run_typed::<Vec<(u8, Option<u8>)>, PairConv>(case),
         Convention::PairSmall => run_typed::<SmallVec<[(u8, Option<u8>); 4]>, PairConv>(case),
@@ -473,7 +495,7 @@ where
                 result = dfs::<C, V>(&deque, &model, stats, &mut path, depth, &alphabet, &mut counts);
             }
             if let Err((ops, fail)) = result {
-                let case = Case { convention, ops };
+                let case = Case { convention, ops, universe: 0 };
                 let fail = match engine::guarded(&case, &check_case) {
                     Err(f) => f,
                     Ok(_) => fail,
@@ -514,8 +536,56 @@ fn case_strategy(max_ops: usize) -> impl Strategy<Value = Case> {
             if let Some((back, value)) = bad {
                 ops.push(Op::PushBad { back, value });
             }
-            Case { convention, ops }
+            Case { convention, ops, universe: 0 }
         })
+}
+
+/// Long runs: fill with n keys, erase a long contiguous run (or scattered keys) in the
+/// middle in a generated order, then pop / remove at the ends and keep going.
+fn long_run_strategy() -> impl Strategy<Value = Case> {
+    (
+        prop_oneof![Just(Convention::PairVec), Just(Convention::PairSmall), Just(Convention::ItemVec)],
+        20u8..250,
+        any::<u8>(),
+        any::<u8>(),
+        proptest::collection::vec(any::<u8>(), 0..24),
+        proptest::collection::vec(op_strategy_wide(), 0..30),
+        0u8..3,
+    )
+        .prop_map(|(convention, n, from, len, scatter, tail, order)| {
+            let mut ops: Vec<Op> = (0..n).map(|i| Op::PushNext { gap: 0, value: i }).collect();
+            // a contiguous run [a, b) strictly inside (the ends stay live)
+            let a = 1 + (from as usize * (n as usize - 2)) / 256;
+            let b = (a + (len as usize * (n as usize - 1 - a)) / 255).min(n as usize - 1);
+            let mut run: Vec<u8> = (a..b).map(|k| k as u8).collect();
+            match order {
+                0 => {}
+                1 => run.reverse(),
+                _ => {
+                    // deterministic shuffle
+                    let m = run.len();
+                    for i in 0..m {
+                        run.swap(i, (i * 7 + 3) % m.max(1));
+                    }
+                }
+            }
+            ops.extend(run.into_iter().map(Op::Remove));
+            ops.extend(scatter.into_iter().map(|k| Op::Remove(k % n)));
+            ops.push(Op::PopFirst);
+            ops.push(Op::PopLast);
+            ops.extend(tail);
+            Case { convention, ops, universe: 250 }
+        })
+}
+
+fn op_strategy_wide() -> impl Strategy<Value = Op> {
+    prop_oneof![
+        2 => (0u8..2, any::<u8>()).prop_map(|(gap, value)| Op::PushNext { gap, value }),
+        3 => any::<u8>().prop_map(Op::Find),
+        4 => any::<u8>().prop_map(Op::Remove),
+        4 => Just(Op::PopFirst),
+        3 => Just(Op::PopLast),
+    ]
 }
 
 pub fn run(ctx: &Ctx, rep: &mut Report) {
@@ -529,6 +599,8 @@ pub fn run(ctx: &Ctx, rep: &mut Report) {
     );
     let cases = ctx.share(ctx.tier.pick(40_000, 2_000_000));
     engine::drive(ctx, rep, "random", case_strategy(150), cases, check_case);
+    let cases = ctx.share(ctx.tier.pick(6_000, 300_000));
+    engine::drive(ctx, rep, "long-runs", long_run_strategy(), cases, check_case);
 }
 
 fn replay(_ctx: &Ctx, _group: &str, case: &Value) -> CaseResult {
@@ -538,7 +610,7 @@ fn replay(_ctx: &Ctx, _group: &str, case: &Value) -> CaseResult {
 pub fn def() -> PropDef {
     PropDef {
         id: "C16",
-        rule: "Cases are operation sequences (push with increasing keys, push of an already-erased item, push of a non-increasing key which must panic, find, remove, pop_first, pop_last, clear) on SortedDeque, for (key, Option<value>) pairs over Vec and SmallVec<[_;4]> and for a whole-item SortedDequeItem type over Vec, over a key universe of 8. After every step iteration order, first, last, is_empty and find for every key of the universe are compared with a BTreeMap. Part 1 enumerates all sequences over a 12-symbol alphabet up to max_depth; part 2 draws random sequences of up to 150 operations. Non-trivial: an end removal (pop or remove) whose neighbour in insertion order is a tombstone left by a middle removal, or a find of a key lying between two tombstones. Distinct: by enumeration for part 1, by hash of the serialised case for part 2.",
+        rule: "Cases are operation sequences (push with increasing keys, push of an already-erased item, push of a non-increasing key which must panic, find, remove, pop_first, pop_last, clear) on SortedDeque, for (key, Option<value>) pairs over Vec and SmallVec<[_;4]> and for a whole-item SortedDequeItem type over Vec, over a key universe of 8 (long-runs: 20..250 keys pushed, a contiguous run of the middle keys erased in ascending / descending / shuffled order plus scattered erasures, then pops at both ends and a random tail, over a universe of 250). After every step iteration order, first, last, is_empty and find for every key of the universe are compared with a BTreeMap. Part 1 enumerates all sequences over a 12-symbol alphabet up to max_depth; part 2 draws random sequences of up to 150 operations. Non-trivial: an end removal (pop or remove) whose neighbour in insertion order is a tombstone left by a middle removal, or a find of a key lying between two tombstones. Distinct: by enumeration for part 1, by hash of the serialised case for part 2.",
         assumptions: &[
             "whole-item convention is only exercised with distinct keys (erasing must not reorder an item relative to its neighbours)",
             "harness built with debug assertions on",
